@@ -470,8 +470,15 @@ func (r *rig) actors() []gx.Actor {
 			}
 			if !m.canceled {
 				acts = append(acts, gx.Actor{Label: "cancel:" + name, Rank: 4, Variants: []gx.Variant{{Do: func() {
+					// idle: nothing is parked and no request is pending - the session has done whatever it was going to do
+					idle := len(r.c.Parked()) == 0 && r.cl.PendingKinds() == ""
 					r.mu.Lock()
 					m.canceled = true
+					kind := "app-cancel"
+					if idle {
+						kind = "app-cancel-idle"
+					}
+					r.log = append(r.log, hev{kind: kind, member: m.idx, sess: m.started - 1})
 					r.mu.Unlock()
 					m.cancel()
 				}}}})
@@ -523,7 +530,13 @@ func (r *rig) actors() []gx.Actor {
 		// while the coordinator cannot be found a member asks again after every back-off: that alone is no progress
 		futileLabels = append(futileLabels, "FindCoordinator", "Metadata")
 	}
-	if anyRunning && r.hbWaiting() && r.c.TrailingAny(futileLabels...) < futile*2 {
+	futileCap, backoffCap := futile*2, 12
+	if p.CoordEnv && closingNow {
+		// a close during the outage has to get through every bounded retry of the shutdown path (final commit, leave), each
+		// of which waits for back-offs: time must keep passing. A shutdown that never ends runs into the step limit instead
+		futileCap, backoffCap = 400, 400
+	}
+	if anyRunning && r.hbWaiting() && r.c.TrailingAny(futileLabels...) < futileCap {
 		acts = append(acts, gx.Actor{Label: "tick:heartbeat", Rank: 3, Variants: []gx.Variant{{Do: func() { time.Sleep(time.Second) }}}})
 	}
 	if p.CoordEnv {
@@ -545,7 +558,7 @@ func (r *rig) actors() []gx.Actor {
 					failedSince = true
 				}
 			}
-			if anyRunning && failedSince && r.c.TrailingAny("tick:", "FindCoordinator") < 12 {
+			if anyRunning && failedSince && r.c.TrailingAny("tick:", "FindCoordinator") < backoffCap {
 				// a member waits for its back-off to expire before it asks again
 				acts = append(acts, gx.Actor{Label: "tick:backoff", Rank: 3, Variants: []gx.Variant{{Do: func() { time.Sleep(60 * time.Millisecond) }}}})
 			}
@@ -671,6 +684,17 @@ func (r *rig) judge() *gx.Outcome {
 					}
 					if !strings.Contains(setup.claims, fmt.Sprint(e.part)) {
 						out.Violate("C07", "claim-not-assigned", "session %s: ConsumeClaim for partition %d which is not among the session's claims %s; %s", name, e.part, setup.claims, lines())
+					}
+				}
+			case "app-cancel-idle":
+				// "one ConsumeClaim per assigned partition unless the session is already ending; the session ends when a claim
+				// ends": a claim that could not start ends the session by itself. Here the application had to cancel an idle
+				// session in which an assigned partition never got its ConsumeClaim
+				if setup != nil && !cleanupSeen {
+					for pt := int32(0); pt < int32(p.NParts); pt++ {
+						if strings.Contains(setup.claims, fmt.Sprint(pt)) && started[pt] == 0 {
+							out.Violate("C07", "session-idles-without-claim", "session %s: partition %d is among the session's claims %s, no ConsumeClaim ever started for it, and the session kept running until the application cancelled it; %s", name, pt, setup.claims, lines())
+						}
 					}
 				}
 			case "claim-end":
